@@ -99,6 +99,8 @@ def setup(ctx):
 
 def set_fs(rng):
     fs = float(rng.choice([1e9, 1.6e10, 8e10, 1e12]))
+    if rng.integers(6) == 0:      # "all sampling rates": audio-like and sub-Hz-resolution grids, where a cutoff is a small non-integer number of Hz
+        fs = float(rng.choice([2.0, 16.0, 80.0, 1000.0, 44100.0, 1e15]))
     with core.quiet():
         if rng.integers(5) == 0:      # a sampling rate that is not an integer multiple of the slot rate: everything follows gv.fs, not sps*R
             T.gv(R=fs / float(rng.choice([2.5, 3.3, 7.6])), fs=fs)
